@@ -79,6 +79,8 @@ type ccArrival struct {
 	id        uint32
 	call      int
 	answered  bool
+	wantAns   bool // the script decided to answer; done once the request is complete
+	reqDone   bool // the client's END_STREAM was read
 	excluded  bool // above the connection's final GOAWAY id
 	afterAck  bool // arrived after the client acknowledged the PING behind the final GOAWAY
 	betweenGA bool // arrived between the two GOAWAYs of a two-phase drain
@@ -116,9 +118,11 @@ func (w *ccWorld) badf(format string, a ...any) {
 	}
 }
 
-// answer writes a complete OK response. Caller holds w.mu.
+// answer writes a complete OK response once the whole request has been read
+// (a real unary handler cannot run earlier). Caller holds w.mu.
 func (w *ccWorld) answer(s *ccServer, a *ccArrival) {
-	if a.answered {
+	a.wantAns = true
+	if a.answered || !a.reqDone {
 		return
 	}
 	a.answered = true
@@ -155,6 +159,13 @@ func (w *ccWorld) onFrame(s *ccServer, f *h2peer.Frame) {
 		w.finalGoAway(s)
 	case f.Type == http2.FramePing && f.IsAck() && f.PingData == ccProof2:
 		s.proofAck = true
+	case f.Type == http2.FrameData && f.EndStream():
+		if a := w.byStream[[2]uint32{uint32(s.idx), f.StreamID}]; a != nil {
+			a.reqDone = true
+			if a.wantAns {
+				w.answer(s, a)
+			}
+		}
 	case f.Type == http2.FrameHeaders && f.BlockComplete:
 		call := -1
 		if v, ok := f.Field("x-call"); ok {
